@@ -88,6 +88,11 @@ class Site:
         return '%s|%s|%s|#%d' % (anon_closures(self.fn.qual), self.kind, self._trees(), self.ordinal)
 
     @property
+    def ckey(self):
+        """canonical table key: function, kind and a hash of the fully expanded, name-free operand trees"""
+        return slices.canon_site_key(self.fn, self.kind, self.trees)
+
+    @property
     def tkey(self):
         """table key: without ordinal (a table line covers all equal trees in the function)"""
         return '%s|%s|%s' % (anon_closures(self.fn.qual), self.kind, self._trees())
@@ -499,17 +504,13 @@ class Discharger:
             if not panicky and not stdish and inner not in self.local_macros:
                 self.third_party.add(ch[0])
                 return ('M', 'token text comes from the third-party macro %s (trusted as part of that dependency)' % ch[0])
-        e = self.table.get(s.tkey)
-        wk = '%s|%s|*' % (anon_closures(fn.qual), s.kind)
-        if e is None and wk in self.table:
-            e = self.table[wk]
-            self.used_table.add(wk)
-        elif e is not None:
-            self.used_table.add(s.tkey)
+        ck = s.ckey
+        e = self.table.get(ck)
         if e is not None:
+            self.used_table.add(ck)
             if e.get('slices') is not None:
                 # the review was of particular code: the entry is void once the site's backward slice changed
-                items = slices.site_items(fn, self.prog.crate(self.crate), s.term, s.bb)
+                items = slices.canon_site_items(fn, self.prog.crate(self.crate), s.trees, s.kind, s.bb)
                 dg, hs = slices.digest(items)
                 if dg not in e['slices']:
                     new = slices.new_items(items, e.get('slice_items'))
@@ -613,6 +614,9 @@ class Discharger:
                     if c2 is not None and (c2 >= cb if rel[0] == 'le' else c2 >= cb - 1) and tr[0] == 0:
                         if not writes_between(fn, g, sc, s.bb, [rel[2]]):
                             return ('D3', 'dominated by %s %s %s, subtrahend %s' % (c2, '<=' if rel[0] == 'le' else '<', show(rel[2]), cb))
+                if cb == 1 and rel[0] == 'true' and is_call(rel[1], 'is_power_of_two') and len(rel[1]) == 3 and same_tree(fn, rel[1][2], a) and tr[0] == 0:
+                    if not writes_between(fn, g, sc, s.bb, [a]):
+                        return ('D3', 'dominated by %s.is_power_of_two(): a power of two is at least 1' % show(a))
                 if cb == 1 and rel[0] == 'ne' and self._is_zero(rel[2]) and same_tree(fn, rel[1], a) and tr[0] == 0:
                     if not writes_between(fn, g, sc, s.bb, [rel[1]]):
                         return ('D3', 'dominated by %s != 0' % show(rel[1]))
